@@ -717,6 +717,8 @@ impl Check for C12 {
         }
         let mut w = Walker { run: Runner { ctx, executed: 0 }, rep: &mut *rep, split_depth: ctx.tier.pick(1, 2), shallow_seq: 0, unit_seq: 0, memo: BTreeMap::new(), seen: BTreeSet::new(), stop: false };
         let mut bounds = serde_json::Map::new();
+        // smallest passes first (see C09): under a wall cap as many passes as possible are complete
+        let mut plan: Vec<(u64, Pass, usize)> = vec![];
         for p in passes() {
             if let Some(o) = &only {
                 if *o != p.name {
@@ -724,17 +726,22 @@ impl Check for C12 {
                 }
             }
             let maxd = ctx.tier.pick(p.depth_quick, p.depth_thorough);
-    // development aid: `--opt maxdepth=N` clamps every pass (never used by the registered runs)
-    let maxd = ctx.opt("maxdepth").and_then(|s| s.parse::<usize>().ok()).map_or(maxd, |m| maxd.min(m));
+            // development aid: `--opt maxdepth=N` clamps every pass (never used by the registered runs)
+            let maxd = ctx.opt("maxdepth").and_then(|s| s.parse::<usize>().ok()).map_or(maxd, |m| maxd.min(m));
             if maxd == 0 {
                 continue;
             }
+            plan.push(((p.ops.len() as u64).pow(maxd as u32), p, maxd));
+        }
+        plan.sort_by_key(|x| x.0);
+        for (_, p, maxd) in plan {
             bounds.insert(p.name.to_string(), json!({"alphabet": p.ops.iter().map(|o| o.label()).collect::<Vec<_>>(), "depth": maxd}));
             let mut prefix = vec![];
             w.dfs(&p, &mut prefix, true, maxd, true);
             if w.stop {
                 break;
             }
+            w.rep.count(&format!("completed-slices.{}", p.name), 1);
         }
         let executed = w.run.executed;
         rep.bound("passes", Value::Object(bounds));
